@@ -81,10 +81,29 @@ Definition tags_for (k : nat) : option (amap str) :=
 
 Definition ends_conn (outs : list cap_out) : bool := existsb is_upgrade outs || existsb is_inject outs.
 
+Definition s_reconnect : str := Eval vm_compute in 1 :: bs "reconnect".
+
+Definition render_probes (cfg : cap_cfg) (st : cap_state) (probes : list str) : str :=
+  concat (List.map (fun p => if c_tracking cfg
+                             then show_bool (has_capability true (st_enabled st) p)
+                             else [33]) probes).
+
+Definition render_reg (cfg : cap_cfg) : str := hexlist (List.map render_line (registration_writes cfg)).
+
 Fixpoint run_rounds (cfg : cap_cfg) (probes : list str) (k : nat) (st : cap_state) (evs : list str) : str :=
   match evs with
   | [] => []
   | ev :: r =>
+      if streqb ev s_reconnect then
+        (* Close + Connect again: internalConnect calls state.reset(false) (the STS policy
+           is kept), then writes the registration burst *)
+        let st' := cap_init (st_sts st) in
+        bs "|c:reg=" ++ render_reg cfg ++
+        bs ";t=" ++ hexlist (sort_strs (akeys (st_tmp st'))) ++
+        bs ";e=" ++ hexlist (sort_strs (akeys (st_enabled st'))) ++
+        bs ";h=" ++ render_probes cfg st' probes ++
+        run_rounds cfg probes (S k) st' r
+      else
       let params := split_byte 10 ev in
       let res := if c_tracking cfg then handle_cap sort_strs cfg false now0 st params else (st, []) in
       let st' := fst res in
@@ -94,21 +113,24 @@ Fixpoint run_rounds (cfg : cap_cfg) (probes : list str) (k : nat) (st : cap_stat
        else bs ";t=" ++ hexlist (sort_strs (akeys (st_tmp st'))) ++
             bs ";e=" ++ hexlist (sort_strs (akeys (st_enabled st'))) ++
             bs ";g=" ++ show_bool (tag_section_present (send_loop_tags (st_enabled st') (tags_for k))) ++
-            bs ";h=" ++ concat (List.map (fun p => if c_tracking cfg
-                                                   then show_bool (has_capability true (st_enabled st') p)
-                                                   else [33]) probes) ++
+            bs ";h=" ++ render_probes cfg st' probes ++
             run_rounds cfg probes (S k) st' r)
   end.
 
 Definition run_session (args : list str) : str :=
   let cfg := cfg_of_bits (nth_arg8 0 args) (nth_arg8 1 args) in
   let probes := match nth_arg8 2 args with [] => [] | p => split_byte 32 p end in
-  bs "reg=" ++ hexlist (List.map render_line (registration_writes cfg)) ++
+  bs "reg=" ++ render_reg cfg ++
   bs "|poss=" ++ hexlist (sort_strs (akeys (possible_caps cfg false))) ++
-  run_rounds cfg probes 0 (cap_init sts_init) (skipn 3 args).
+  run_rounds cfg probes 0 (cap_init sts_init) (skipn 3 args) ++
+  (* after Close: HasCapability on a client that is not connected *)
+  bs "|x=" ++ concat (List.map (fun p => if c_tracking cfg
+                                         then show_bool (has_capability false [] p)
+                                         else [33]) probes).
 
 Definition run_C08 (suite : str) (args : list str) : option str :=
   if streqb suite (bs "cap.parse") then Some (render_capmap (parse_cap (nth_arg8 0 args)))
   else if streqb suite (bs "cap.session") then Some (run_session args)
   else if streqb suite (bs "cap.ackremoval") then Some (run_session args)
+  else if streqb suite (bs "cap.enum") then Some (run_session args)
   else None.
